@@ -693,7 +693,7 @@ func TestC36(t *testing.T) {
 	}
 	t0 := time.Now()
 	parts := map[string]float64{}
-	vfParallel(len(cases), 4, func(i int) {
+	vfParallel(len(cases), 6, func(i int) {
 		judge(cases[i])
 	})
 	parts["sequential"] = time.Since(t0).Seconds()
